@@ -14,6 +14,19 @@ fn case(src: &mut Src, ctx: &mut Ctx) -> Result<(), Fail> {
     let cfg = gen_world(src, true);
     ctx.note(|| format!("{:?}", cfg));
     let mut w = World::new(cfg);
+    // 1 in 4: the sockets first carry another connection for a few hundred events under the same
+    // faults, then both applications abort it and start over on the same socket objects
+    // (decided from bits of a drawn seed so that saved tapes keep their draws)
+    let s0 = w.cfg.sides[0].stream_seed;
+    if (s0 >> 7) & 3 == 0 {
+        let first = 100 + ((s0 >> 9) % 400);
+        let _ = w.run(src, ctx, first, 2 * 3600 * 1_000_000)?;
+        let parked = w.sock(0).recv_queue() + w.sock(1).recv_queue();
+        w.restart();
+        w.events = 0;
+        ctx.label("socket-objects-reused-after-abort");
+        let _ = parked;
+    }
     let end = w.run(src, ctx, 20_000, 2 * 3600 * 1_000_000)?;
     label_stats(&w, ctx);
     ctx.label(match end {
